@@ -26,15 +26,29 @@ fn raw_entries<const MAX: usize>(g: &GlobalDescriptorTable<MAX>) -> Vec<u64> {
 }
 
 fn check_state<const MAX: usize>(rep: &mut Report, g: &GlobalDescriptorTable<MAX>, shadow: &[u64], log: &[J], what: &str) -> bool {
-    let raw = raw_entries(g);
+    // the accessors themselves are under test: a panic in them is a finding about the table, not a harness error
+    let raw = match catch(|| raw_entries(g)) {
+        Ok(r) => r,
+        Err(()) => {
+            rep.violation(&format!("{}|entries()-panicked", what), J::obj(vec![("max", J::U(MAX as u64)), ("used", J::U(shadow.len() as u64))]));
+            return false;
+        }
+    };
+    let limit = match catch(|| g.limit()) {
+        Ok(l) => l,
+        Err(()) => {
+            rep.violation(&format!("{}|limit()-panicked", what), J::obj(vec![("max", J::U(MAX as u64)), ("used", J::U(shadow.len() as u64))]));
+            return false;
+        }
+    };
     let ctx = || J::obj(vec![("max", J::U(MAX as u64)), ("ops", J::A(log.iter().rev().take(10).rev().cloned().collect())), ("expected", J::A(shadow.iter().take(12).map(|&x| J::hex(x)).collect())), ("entries", J::A(raw.iter().take(12).map(|&x| J::hex(x)).collect()))]);
     if raw != shadow {
         let kind = if raw.first() != Some(&0) { "null-descriptor-missing" } else if raw.len() != shadow.len() { "wrong-number-of-used-slots" } else { "entries-differ-from-appended-descriptors" };
         rep.violation(&format!("{}|{}", what, kind), ctx());
         return false;
     }
-    if g.limit() as usize != 8 * shadow.len() - 1 {
-        rep.violation(&format!("{}|limit-is-not-8n-1", what), J::obj(vec![("limit", J::U(g.limit() as u64)), ("used", J::U(shadow.len() as u64))]));
+    if limit as usize != 8 * shadow.len() - 1 {
+        rep.violation(&format!("{}|limit-is-not-8n-1", what), J::obj(vec![("limit", J::U(limit as u64)), ("used", J::U(shadow.len() as u64))]));
         return false;
     }
     if shadow.len() > MAX {
@@ -107,9 +121,13 @@ fn history<const MAX: usize>(rep: &mut Report, r: &mut Rng) {
         }
     }
     // clone agrees
-    let c = g.clone();
-    if raw_entries(&c) != shadow || c.limit() != g.limit() {
-        rep.violation("clone|differs", J::Null);
+    match catch(|| {
+        let c = g.clone();
+        raw_entries(&c) != shadow || c.limit() != g.limit()
+    }) {
+        Ok(false) => {}
+        Ok(true) => rep.violation("clone|differs", J::Null),
+        Err(()) => rep.violation("clone|panicked", J::U(MAX as u64)),
     }
     if cfg!(miri) {
         return;
@@ -119,8 +137,12 @@ fn history<const MAX: usize>(rep: &mut Report, r: &mut Rng) {
     // `load` wants a `&'static`; the box outlives both calls
     let st: &'static GlobalDescriptorTable<MAX> = unsafe { &*(&*g as *const GlobalDescriptorTable<MAX>) };
     for which in ["load_unsafe", "load"] {
-        let (_, evs) = trapemu::trapped(|| if which == "load" { st.load() } else { unsafe { g.load_unsafe() } });
+        let (res, evs) = trapemu::trapped(|| catch(|| if which == "load" { st.load() } else { unsafe { g.load_unsafe() } }));
         rep.eval();
+        if res.is_err() {
+            rep.violation(&format!("{}|panicked", which), J::obj(vec![("max", J::U(MAX as u64)), ("used", J::U(shadow.len() as u64))]));
+            continue;
+        }
         if evs.len() != 1 || evs[0].kind != K::Lgdt {
             rep.violation(&format!("{}|not-exactly-one-lgdt", which), J::A(evs.iter().map(|e| J::s(trapemu::fmt_event(e))).collect()));
         } else if evs[0].n as usize != 8 * shadow.len() - 1 || evs[0].val != base {
@@ -151,7 +173,7 @@ fn from_raw<const MAX: usize>(rep: &mut Report, r: &mut Rng) {
         Ok(g) => {
             if should_panic {
                 rep.violation("from_raw_entries|accepted-documented-invalid-slice", J::obj(vec![("max", J::U(MAX as u64)), ("len", J::U(len as u64)), ("first", v.first().map(|&x| J::hex(x)).unwrap_or(J::Null))]));
-            } else if raw_entries(&g) != v || g.limit() as usize != 8 * len - 1 {
+            } else if catch(|| raw_entries(&g) != v || g.limit() as usize != 8 * len - 1) != Ok(false) {
                 rep.violation("from_raw_entries|does-not-reproduce-input", J::obj(vec![("max", J::U(MAX as u64)), ("len", J::U(len as u64))]));
             }
         }
@@ -187,7 +209,7 @@ pub fn run(a: &Args, rep: &mut Report) {
     }
     // the default table is MAX = 8 and starts with the null descriptor
     let d = GlobalDescriptorTable::new();
-    if raw_entries(&d) != vec![0] || d.limit() != 7 {
+    if catch(|| raw_entries(&d) != vec![0] || d.limit() != 7) != Ok(false) {
         rep.violation("new|not-just-the-null-descriptor", J::Null);
     }
 }
